@@ -1,96 +1,48 @@
-// Driver for the Chain family (C25, C26, C27).
+// Driver for the Chain family (C25, C26, C27): block trees manufactured by a factory node are
+// delivered to fresh receiver nodes (real BlockChain, executor, mavl store, mempool, solo
+// consensus with mining off) in the order and through the entry points a behaviour names.
 package main
 
 import (
 	"fmt"
-	"time"
+	"os"
+	"path/filepath"
+	"strconv"
+	"strings"
 
-	"github.com/33cn/chain33/common"
-	"github.com/33cn/chain33/types"
 	"verif/harness/core"
 	"verif/harness/drv/chain/rig"
 )
 
-func probe(env *core.Env, args []string) int {
-	defer rig.UseFastTmp()()
-	t0 := time.Now()
-	f, err := rig.NewFactory(env.Seed)
-	if err != nil {
-		fmt.Println("factory:", err)
-		return 2
-	}
-	defer f.Close()
-	fmt.Println("factory start", time.Since(t0))
-	g, _ := f.N.Genesis()
-	t0 = time.Now()
-	trunk, err := f.ChainOf(g, 12, 0)
-	if err != nil {
-		fmt.Println(err)
-		return 2
-	}
-	fmt.Println("trunk built", time.Since(t0), "bits", fmt.Sprintf("%x", g.Difficulty))
-	a, err := f.ChainOf(trunk[9], 3, 0)
-	if err != nil {
-		fmt.Println(err)
-		return 2
-	}
-	b, err := f.ChainOf(trunk[9], 2, 0x1f00fffe)
-	if err != nil {
-		fmt.Println(err)
-		return 2
-	}
-	_ = b
-	for rnd := 0; rnd < 2; rnd++ {
-		t0 = time.Now()
-		n, err := rig.Start(rig.Opts{RecordSeq: true})
+// sweep removes temp dirs left by dead processes of this driver (tmpfs is memory).
+func sweep() {
+	ds, _ := filepath.Glob("/dev/shm/verif-chain-*")
+	for _, d := range ds {
+		p := strings.Split(filepath.Base(d), "-")
+		if len(p) < 3 {
+			continue
+		}
+		pid, err := strconv.Atoi(p[2])
 		if err != nil {
-			fmt.Println(err)
-			return 2
+			continue
 		}
-		fmt.Println("receiver start", time.Since(t0))
-		t0 = time.Now()
-		for _, blk := range trunk {
-			r := n.Deliver(blk, true, "p1")
-			if r.Err != nil || !r.Main {
-				fmt.Println("trunk deliver", blk.Height, r)
-			}
+		if _, err := os.Stat(fmt.Sprintf("/proc/%d", pid)); err != nil {
+			os.RemoveAll(d)
 		}
-		fmt.Println("trunk delivered", time.Since(t0))
-		for _, i := range []int{2, 1, 0} {
-			r := n.Deliver(a[i], rnd == 0, "p2")
-			h, ht, _ := n.Tip()
-			fmt.Println("deliver a", i, r.Main, r.Orphan, r.Class(), "tip", ht, common.ToHex(h)[:10])
-		}
-		r := n.Deliver(a[1], true, "p2")
-		fmt.Println("dup", r.Main, r.Orphan, r.Class())
-		seqs, last, err := n.Sequences()
-		fmt.Println("seqs", len(seqs), last, err)
-		for i, s := range seqs {
-			if i > 10 {
-				fmt.Println(i, s.Type, common.ToHex(s.Hash)[:10])
-			}
-		}
-		t0 = time.Now()
-		snap, err := n.Snapshot(nil, append([]string{f.GenesisAddr()}, f.Addrs...))
-		fmt.Println("snapshot", time.Since(t0), err, snap.Height, snap.State)
-		ok, msg, err := n.DeliverBus(b[0], true, "p3")
-		fmt.Println("bus", ok, msg, err)
-		ok, msg, err = n.DeliverBus(b[1], false, "p3")
-		fmt.Println("bus", ok, msg, err)
-		h, ht, _ := n.Tip()
-		fmt.Println("tip", ht, common.ToHex(h)[:10], common.ToHex(b[1].Hash(n.Cfg))[:10])
-		t0 = time.Now()
-		n.Close()
-		fmt.Println("close", time.Since(t0))
 	}
-	_ = types.ErrBlockExist
-	return 0
 }
 
 func main() {
+	sweep()
+	cleanup := rig.UseFastTmp()
+	// core.Main leaves through os.Exit on several paths (then the next start sweeps); on the
+	// normal return path clean up here
+	defer cleanup()
+	defer w.close()
 	core.Main(&core.Family{
 		Name:      "chain",
-		NewDriver: nil,
-		Extra:     map[string]func(env *core.Env, args []string) int{"probe": probe},
+		NewDriver: newDriver,
+		Recorders: map[string]core.Recorder{"default": recordDefault},
+		Extra:     map[string]func(*core.Env, []string) int{"sweep": func(*core.Env, []string) int { return 0 }},
 	})
 }
